@@ -52,6 +52,10 @@ def para_lines(n: Dict[str, Any], rst: bool, lit: bool) -> List[str]:
         lines = [w[0]]
     elif st == "colon":
         lines = [f"{w[0]}: {w[1]} {w[2]}"]
+    elif st == "tparam":                     # structured type expressions over one unresolvable container name
+        lines = [f"{TYPE_HEAD}[{w[0]}]"]
+    elif st == "tbare":
+        lines = [TYPE_HEAD]
     elif rst:
         lines = {"bold": [f"{w[0]} **{w[1]}** {w[2]}"] if len(w) > 2 else None,
                  "italic": [f"*{w[0]} {w[1]}* {w[2]}"] if len(w) > 2 else None,
@@ -286,12 +290,26 @@ def ser_napoleon(doc: Sequence[Dict[str, Any]], templates: Dict[str, Any], numpy
     if any(n["t"] == "head" for n in regs[0]):
         raise NotExpressible("section headings collide with the section syntax of this style")
     table = NUMPY_SECTION if numpy else GOOGLE_SECTION
+    # types are written with the entry they belong to:  google "pa (T): text", "Returns:  T: text";  numpy "pa : T", "T" line
+    partner = {"type": ("param", "arg", "keyword"), "rtype": ("return", "returns"), "returntype": ("return", "returns"),
+               "ytype": ("yield", "yields"), "yieldtype": ("yield", "yields")}
+    types: Dict[Tuple[str, str], str] = {}
+    for reg in regs[1:]:
+        f, body = reg[0], reg[1:]
+        if f["kind"] in partner:
+            mates = [g[0] for g in regs[1:] if g[0]["kind"] in partner[f["kind"]] and g[0]["arg"] == f["arg"]]
+            if len(mates) != 1 or len(body) != 1:
+                raise NotExpressible("a type is written with the entry it belongs to")
+            types[(mates[0]["kind"], mates[0]["arg"])] = para_lines(body[0], True, False)[0]
     out = Out()
     emit_blocks(out, regs[0], 0, True, templates)
     prev_section = None
     for reg in regs[1:]:
         f, body = reg[0], reg[1:]
         kind, arg = f["kind"], f["arg"]
+        if kind in partner:
+            continue
+        ttext = types.get((kind, arg))
         if f.get("form") == "nsee":
             # numpy "See Also": a reference list, one item per field, consecutive items in one section
             if prev_section != "See Also/nsee":
@@ -331,18 +349,20 @@ def ser_napoleon(doc: Sequence[Dict[str, Any]], templates: Dict[str, Any], numpy
             out.sep()
         prev_section = section
         if numpy:
-            if kind in ("note", "see", "seealso") or (kind in ("returns", "yields") and numpy_free_form(body)):
+            if kind in ("note", "see", "seealso") or (kind in ("returns", "yields") and ttext is None and numpy_free_form(body)):
                 # free text; for Returns / Yields pydoctor accepts it when the first line is not a type
                 emit_blocks(out, body, 0, True, templates)
             else:
                 # entry line: name (parameters ...), exception type (raises, warns), return type (returns, yields)
-                out.put(0, arg if arg else "str")
+                out.put(0, (f"{arg} : {ttext}" if ttext else arg) if arg else (ttext or "str"))
                 emit_blocks(out, body, 4, True, templates, glue=(4, ""), cont=4)
         else:
-            if kind in FREEFORM:
+            if kind in FREEFORM and ttext is None:
                 emit_blocks(out, body, 4, True, templates, glue=(4, ""), cont=4)
+            elif kind in FREEFORM:
+                emit_blocks(out, body, 8, True, templates, glue=(4, f"{ttext}: "), cont=8)
             else:
-                emit_blocks(out, body, 8, True, templates, glue=(4, f"{arg}: "), cont=8)
+                emit_blocks(out, body, 8, True, templates, glue=(4, f"{arg} ({ttext}): " if ttext else f"{arg}: "), cont=8)
     return "\n".join(out.lines)
 
 
@@ -482,6 +502,7 @@ def observe(html: str) -> Dict[str, Any]:
                 named = argc[0].find_all(lambda n: n.tag == "span" and has_cls(n, "fieldArg"))
                 arg = (named[0].all_text() if named else argc[0].all_text()).strip().lstrip("*").rstrip(":")
             rows.append({"label": label, "arg": arg, "words": words_of(tr.spaced_text()),
+                         "argcell": "".join(argc[0].all_text().split()) if argc else "",
                          "pre": [norm_block(p.all_text()) for p in tr.find_all(lambda n: n.tag == "pre")]})
     adm_nodes = root.find_all(lambda n: n.tag == "div" and has_cls(n, "rst-admonition"))
     adms = [{"cls": a.cls, "words": words_of(a.spaced_text()),
@@ -511,6 +532,7 @@ def observe(html: str) -> Dict[str, Any]:
 
 
 # =============================================================================== the real pipeline
+TYPE_HEAD = "Bag"
 PARAMS = "pa, pb, *va, **kw"
 STALE = "wq900x wq901x"          # vocabulary-shaped words of a docstring that must NOT be shown
 
@@ -553,7 +575,7 @@ def make_source(cases: Sequence[Tuple[Any, ...]]) -> str:
     return "\n".join(src)
 
 
-def make_system(docformat: str):
+def make_system(docformat: str, processtypes: bool = False):
     from pydoctor import model
 
     class RecSystem(model.System):
@@ -569,10 +591,11 @@ def make_system(docformat: str):
 
     s = RecSystem()
     s.options.docformat = docformat
+    s.options.processtypes = processtypes      # --process-types (google / numpy always process type fields)
     return s
 
 
-def render_batch(fmt: str, cases: Sequence[Dict[str, Any]]) -> List[Dict[str, Any]]:
+def render_batch(fmt: str, cases: Sequence[Dict[str, Any]], processtypes: bool = False) -> List[Dict[str, Any]]:
     """
     cases: {id, host, docstring, attrs: [attribute names documented by var-like fields]}.
     Returns per case: {docstring (as pydoctor holds it), html, attr_html: {name: html}, log: [messages]}.
@@ -580,7 +603,7 @@ def render_batch(fmt: str, cases: Sequence[Dict[str, Any]]) -> List[Dict[str, An
     from pydoctor import epydoc2stan
     from pydoctor.stanutils import flatten
 
-    system = make_system(fmt)
+    system = make_system(fmt, processtypes)
     builder = system.systemBuilder(system)
     in_mod = [c for c in cases if c["host"] != "module"]
     builder.addModuleString(make_source([(f"o{c['id']}", c["host"], c["docstring"], c.get("inlines", {}), c.get("how", "direct"))
@@ -621,6 +644,9 @@ def render_batch(fmt: str, cases: Sequence[Dict[str, Any]]) -> List[Dict[str, An
         obj = system.allobjects[full]
         n0 = len(system.log)
         # an attribute's type is rendered in its header, before its docstring
+        if c.get("how") == "inherited":
+            # the documented method is rendered first, the overriding one after it: both use the linker of the source
+            flatten(epydoc2stan.format_docstring(system.allobjects[f"m.o{c['id']}b.f"]))
         type_stan = epydoc2stan.type2stan(obj) if c["host"] == "attribute" else None
         type_html = flatten(type_stan) if type_stan is not None else ""
         html = flatten(epydoc2stan.format_docstring(obj))
@@ -758,6 +784,16 @@ def judge(rec: Dict[str, Any], fmt: str, docstring: str, r: Dict[str, Any],
         words_ok = False
         if f is as_desc:
             continue
+        body0 = regions(rec["doc"])[fidx + 1][1]
+        if body0.get("style") in ("tparam", "tbare") and f["where"] == "row":
+            # a structured type: the cell of its entry shows exactly the expression (name: type for parameters)
+            ttext = para_lines(body0, True, False)[0]
+            want_cell = (f"{arg}:" if arg else "") + ttext
+            labels = LABELS.get(entry, ())
+            cells = [row["argcell"] for row in ob["rows"] if row["label"] in labels and (not arg or row["arg"] == arg)]
+            if want_cell not in cells:
+                bad.append({"invariant": "TypeTextExact", "field": {"index": fidx, "kind": kind, "arg": arg},
+                            "expected": want_cell, "observed": cells, "warnings": log})
         if fidx == fault - 1:
             # the field's body is the description of the variable it documents and cannot be turned into HTML: the
             # variable's entry falls back on the plain text of the docstring the field stands in
@@ -870,9 +906,10 @@ def case_extras(rec: Dict[str, Any]) -> Dict[str, Any]:
             "inlines": {f["arg"]: word(f["inline"]) for f in rec["fields"] if f.get("inline")}}
 
 
-def work(args: Tuple[str, List[Dict[str, Any]], Dict[str, Any]]) -> Dict[str, Any]:
+def work(args: Tuple[Any, ...]) -> Dict[str, Any]:
     """One batch: serialise, render with the real pipeline, judge.  Runs in a worker process."""
-    fmt, recs, templates = args
+    fmt, recs, templates = args[:3]
+    opts = args[3] if len(args) > 3 else {}
     cases, kept = [], []
     skipped = 0
     for i, rec in enumerate(recs):
@@ -886,7 +923,7 @@ def work(args: Tuple[str, List[Dict[str, Any]], Dict[str, Any]]) -> Dict[str, An
                            "reported": [], "nreported": 0, "nparse": 0}
     if not cases:
         return out
-    results = render_batch(fmt, cases)
+    results = render_batch(fmt, cases, processtypes=bool(opts.get("processtypes")))
     for c, rec, r in zip(cases, kept, results):
         if (r["docstring"] or "").rstrip("\n") != c["docstring"] and not (rec["host"] == "property" and r["docstring"] == ""):
             # (a property whose return field became its description has its docstring blanked by the builder)
@@ -905,7 +942,7 @@ def work(args: Tuple[str, List[Dict[str, Any]], Dict[str, Any]]) -> Dict[str, An
                 out["reported"].append({"format": fmt, "input": c["docstring"], "reported": rep})
         if bad:
             out["bad"].append({"format": fmt, "rec": rec, "input": c["docstring"], "failed": bad, "html": r["html"],
-                               "log": r["log"]})
+                               "log": r["log"], "processtypes": bool(opts.get("processtypes"))})
         if out["sample"] is None and len(rec["doc"]) >= 4:
             out["sample"] = {"format": fmt, "input": c["docstring"], "expected_text": rec["text"],
                              "visible": observe(r["html"])["body"] if fmt != "plaintext" else "(exact)"}
@@ -913,12 +950,12 @@ def work(args: Tuple[str, List[Dict[str, Any]], Dict[str, Any]]) -> Dict[str, An
 
 
 def run_documents(ctx: Ctx, recs: List[Dict[str, Any]], templates: Dict[str, Any], formats: Sequence[str],
-                  batch: int = 250) -> List[Dict[str, Any]]:
+                  batch: int = 250, opts: Optional[Dict[str, Any]] = None) -> List[Dict[str, Any]]:
     import multiprocessing as mp
     # import the implementation once, in the parent: the forked workers inherit it instead of importing it 16 times per pool
     from pydoctor import epydoc2stan, model, stanutils                                   # noqa: F401
     from pydoctor.epydoc.markup import epytext, restructuredtext, google, numpy, plaintext  # noqa: F401
-    tasks = [(fmt, list(ch), templates) for fmt in formats for ch in chunks(recs, batch)]
+    tasks = [(fmt, list(ch), templates, opts or {}) for fmt in formats for ch in chunks(recs, batch)]
     nproc = max(1, min(os.cpu_count() or 4, 16, len(tasks)))
     with mp.get_context("fork").Pool(nproc) as pool:
         return pool.map(work, tasks, chunksize=1)
@@ -1090,6 +1127,9 @@ def plan(ctx: Ctx) -> List[Dict[str, Any]]:
                  need="history-or-fault"),
             dict(name="version-directive<=3", actions=3, depth=1, fields=1, kinds=["param", "note"], blocks=["para", "list", "version"],
                  free=False, sample=1500, formats=["restructuredtext", "google", "numpy", "plaintext"], need="version"),
+            dict(name="typed-fields<=4", actions=4, depth=1, fields=4, kinds=["param", "type", "return", "rtype"], blocks=["typed"],
+                 free=False, sample=1000, hows=["direct", "inherited"], processtypes=True,
+                 formats=["epytext", "restructuredtext", "google", "numpy"], need="typed"),
             dict(name="numpy-see-also<=3", actions=4, depth=1, fields=3, kinds=["seealso", "param"], blocks=["para"], free=False,
                  sample=None, forms=["plain", "nsee"], formats=["numpy"], need_form="nsee"),
             dict(name="rst-consolidated<=3", actions=3, depth=2, fields=2, kinds=["param", "keyword", "except", "ivar", "type"],
@@ -1111,6 +1151,9 @@ def plan(ctx: Ctx) -> List[Dict[str, Any]]:
              need="history-or-fault"),
         dict(name="version-directive<=4", actions=4, depth=2, fields=1, kinds=["param", "note"], blocks=["para", "list", "lit", "version"],
              free=False, sample=8000, formats=["restructuredtext", "google", "numpy", "plaintext"], need="version"),
+        dict(name="typed-fields<=4", actions=4, depth=1, fields=4, kinds=["param", "type", "return", "rtype"], blocks=["typed"],
+             free=False, sample=None, hows=["direct", "inherited"], processtypes=True,
+             formats=["epytext", "restructuredtext", "google", "numpy"], need="typed"),
         dict(name="numpy-see-also<=4", actions=5, depth=1, fields=4, kinds=["seealso", "param"], blocks=["para"],
              free=False, sample=None, forms=["plain", "nsee"], formats=["numpy"], need_form="nsee"),
         dict(name="rst-consolidated<=4", actions=4, depth=2, fields=2, kinds=CONS_KINDS + ["note"], blocks=["para", "list", "lit", "doctest", "code"],
@@ -1146,7 +1189,9 @@ def run(ctx: Ctx) -> int:
                          blocks=tla_set(pl["blocks"]), forms=tla_set(pl.get("forms", ["plain"])),
                          hows=tla_set(pl.get("hows", ["direct"])), free="TRUE" if pl["free"] else "FALSE")
         recs, templates, r = tlc_documents(ctx, cfg)
-        if pl.get("need") == "version":
+        if pl.get("need") == "typed":
+            recs = [x for x in recs if sum(1 for n in x["doc"] if n.get("style") in ("tparam", "tbare")) >= 2]
+        elif pl.get("need") == "version":
             recs = [x for x in recs if any(n["t"] == "version" for n in x["doc"])]
         elif pl.get("need") == "history-or-fault":
             recs = [x for x in recs if x["how"] != "direct" or x["fault"] >= 0]
@@ -1161,7 +1206,7 @@ def run(ctx: Ctx) -> int:
             all_exhaustive = False
         if not whole_pool:
             whole_pool, whole_templates = list(recs), templates
-        outs = run_documents(ctx, recs, templates, pl.get("formats", FORMATS))
+        outs = run_documents(ctx, recs, templates, pl.get("formats", FORMATS), opts={"processtypes": bool(pl.get("processtypes"))})
         for o in outs:
             st = stats[o["fmt"]]
             st["rendered"] += o["rendered"]
@@ -1180,6 +1225,7 @@ def run(ctx: Ctx) -> int:
                 for f in b["failed"]:
                     ctx.violation({"invariant": f["invariant"], "origin": "DocModel", "format": b["format"], "input": b["input"],
                                    "rec": b["rec"], "failed": f, "observed_html": b["html"][:3000], "warnings": b["log"],
+                                   "processtypes": b.get("processtypes", False),
                                    "key": witness_key(b["format"], f, b["rec"])})
         nontrivial += sum(1 for x in recs if len(x["doc"]) >= 3)
         for x in recs:
@@ -1377,7 +1423,7 @@ def replay(ctx: Ctx, path: str) -> int:
     else:
         rec = w["rec"]
         res = render_batch(w["format"], [{"id": 0, "host": rec["host"], "how": rec.get("how", "direct"), "docstring": w["input"],
-                                          **case_extras(rec)}])[0]
+                                          **case_extras(rec)}], processtypes=bool(w.get("processtypes")))[0]
         failed = judge(rec, w["format"], res["docstring"] or w["input"], res)
         bad = sorted({f["invariant"] for f in failed})
         for f in failed:
